@@ -1,14 +1,17 @@
 package main
 
 import (
+	"context"
 	"fmt"
 	"os"
+	"strings"
 	"sync"
 	"sync/atomic"
 	"time"
 
 	"github.com/alicebob/miniredis/v2"
 	"github.com/alicebob/miniredis/v2/server"
+	red "github.com/redis/go-redis/v9"
 	"github.com/zeromicro/go-zero/core/limit"
 	"github.com/zeromicro/go-zero/core/stores/redis"
 	"github.com/zeromicro/go-zero/verifshim/vsched"
@@ -27,14 +30,35 @@ type env struct {
 	// (a single failing command / a very short flap); commands issued from inside a Lua script
 	// are not counted — the script as a whole is the command that fails
 	oneShot atomic.Int32
+	// partial outage: the store answers PING and refuses every other command with an error reply
+	// (a replica that turned read-only, a server out of memory, a busy script): the recovery
+	// monitor sees a healthy store, the limiter's script does not get through
+	pingOnly atomic.Bool
 	fence        // detector of commands re-sent by the go-redis client, see fence.go
 	wide    bool // schedule executions: one fence window per execution (opened by the body)
+	// admin: the harness' own raw connection to the server (CLIENT SETNAME verif-admin), what an
+	// operator's redis-cli is to a production store. Its commands are never failed by the fault
+	// injector, never counted by the one-shot fault and never seen by the fence. Used for the
+	// server-side faults that leave the store REACHABLE: SCRIPT FLUSH (the server loses its script
+	// cache: a restart with persisted data, a failover to a replica), and to read the cache
+	// (SCRIPT EXISTS) / re-load the scripts between histories.
+	admin        *red.Client
+	scriptsDirty bool
 }
+
+const adminName = "verif-admin"
 
 func (e *env) hook() {
 	e.mr.Server().SetPreHook(func(c *server.Peer, cmd string, args ...string) bool {
+		if c.ClientName == adminName {
+			return false
+		}
 		e.observe(c, cmd, args)
 		if e.faulty.Load() {
+			c.WriteError(faultMsg)
+			return true
+		}
+		if e.pingOnly.Load() && !nestedPeer(c) && !strings.EqualFold(cmd, "PING") {
 			c.WriteError(faultMsg)
 			return true
 		}
@@ -65,35 +89,130 @@ const faultMsg = "ERR injected store fault"
 
 func getEnv() *env {
 	envOnce.Do(func() {
-		mr, err := miniredis.Run()
-		if err != nil {
-			panic("miniredis: " + err.Error())
-		}
-		cli := redis.VerifNewNoBreaker(mr.Addr())
-		if !cli.Ping() {
-			panic("cannot reach miniredis")
-		}
-		theEnv = &env{mr: mr, cli: cli}
-		theEnv.hook()
-		// warm-up: load both scripts into the server (first use goes EVALSHA -> NOSCRIPT -> EVAL)
-		limit.NewPeriodLimit(1, 1, cli, "warm-up").Take("x")
-		limit.NewTokenLimiter(1, 1, cli, "warm-up").AllowN(vsched.Epoch, 1)
-		mr.FlushAll()
-		settle(mr, cli.Ping)
+		theEnv = newEnv(func(addr string) *redis.Redis { return redis.VerifNewNoBreaker(addr) })
 	})
 	return theEnv
 }
 
+// newEnv starts one miniredis and builds the go-zero client for it with mk.
+func newEnv(mk func(addr string) *redis.Redis) *env {
+	mr, err := miniredis.Run()
+	if err != nil {
+		panic("miniredis: " + err.Error())
+	}
+	cli := mk(mr.Addr())
+	// go-zero's Ping gives up after one (real) second: on a stalled machine try for a while
+	for i := 0; !cli.Ping(); i++ {
+		if i > 60 {
+			fmt.Println("ERROR cannot reach miniredis")
+			os.Exit(2)
+		}
+		time.Sleep(50 * time.Millisecond)
+	}
+	e := &env{mr: mr, cli: cli}
+	e.hook()
+	e.admin = red.NewClient(&red.Options{Addr: mr.Addr(), ClientName: adminName, PoolSize: 1, ConnMaxIdleTime: -1})
+	e.adminReady()
+	// warm-up: load both scripts into the server (first use goes EVALSHA -> NOSCRIPT -> EVAL)
+	limit.NewPeriodLimit(1, 1, cli, "warm-up").Take("x")
+	limit.NewTokenLimiter(1, 1, cli, "warm-up").AllowN(vsched.Epoch, 1)
+	mr.FlushAll()
+	settle(mr, cli.Ping)
+	return e
+}
+
+// withEnv runs f with e in the place of the process' environment (the real-client histories of
+// real.go; main process only, nothing else is running then).
+func withEnv(e *env, f func()) {
+	getEnv()
+	saved := theEnv
+	theEnv = e
+	defer func() { theEnv = saved }()
+	f()
+}
+
 // reset empties the store, clears any fault and puts miniredis' clock at the epoch.
 func (e *env) reset() {
-	e.hardFault(false)
 	e.faulty.Store(false)
+	e.pingOnly.Store(false)
 	e.oneShot.Store(0)
+	e.hardFault(false)
+	e.restoreScripts()
 	e.mr.FlushAll()
 	e.mr.SetTime(vsched.Epoch)
 }
 
+// adminReady (re-)establishes the admin connection while no fault is active and checks that the
+// server knows it by name (the exemption in the pre-hook goes by that name).
+func (e *env) adminReady() {
+	for i := 0; ; i++ {
+		name, err := e.admin.ClientGetName(context.Background()).Result()
+		if err == nil && name == adminName {
+			return
+		}
+		if i > 3000 {
+			fmt.Printf("ERROR admin connection to miniredis not usable: name %q err %v\n", name, err)
+			os.Exit(2)
+		}
+		time.Sleep(10 * time.Millisecond)
+	}
+}
+
+func (e *env) adminDo(what string, err error) {
+	if err != nil {
+		fmt.Printf("ERROR admin command %s failed: %v\n", what, err)
+		os.Exit(2)
+	}
+}
+
+// loseScripts: the server forgets every cached script (SCRIPT FLUSH); data, TTLs and
+// reachability are untouched. EVALSHA answers NOSCRIPT until the script is sent again.
+func (e *env) loseScripts() {
+	e.scriptsDirty = true
+	e.adminDo("SCRIPT FLUSH", e.admin.ScriptFlush(context.Background()).Err())
+}
+
+// wipe: the server loses its data AND its script cache (a restart without persistence).
+func (e *env) wipe() {
+	e.mr.FlushAll()
+	e.loseScripts()
+}
+
+// scriptBits reads the server's script cache: "p" / "t" = period / token script cached.
+func (e *env) scriptBits() string {
+	if e.closed {
+		return "??" // server socket closed (hard outage): nobody can ask
+	}
+	ps, ts := limit.VerifScripts()
+	ex, err := e.admin.ScriptExists(context.Background(), ps.Hash(), ts.Hash()).Result()
+	e.adminDo("SCRIPT EXISTS", err)
+	out := ""
+	for i, c := range []string{"p", "t"} {
+		if i < len(ex) && ex[i] {
+			out += c
+		} else {
+			out += "-"
+		}
+	}
+	return out
+}
+
+// restoreScripts puts both scripts back into the server's cache (every history starts from the
+// state the warm-up left: both scripts cached).
+func (e *env) restoreScripts() {
+	if !e.scriptsDirty {
+		return
+	}
+	ps, ts := limit.VerifScripts()
+	e.adminDo("SCRIPT LOAD", ps.Load(context.Background(), e.admin).Err())
+	e.adminDo("SCRIPT LOAD", ts.Load(context.Background(), e.admin).Err())
+	e.scriptsDirty = false
+}
+
 func (e *env) fault(on bool) { e.faulty.Store(on) }
+
+// partial begins / ends a partial outage (PING answered, everything else refused).
+func (e *env) partial(on bool) { e.pingOnly.Store(on) }
 
 // failNext arms a one-shot fault: exactly the next k store commands fail (k = 0 disarms).
 func (e *env) failNext(k int) { e.oneShot.Store(int32(k)) }
@@ -122,6 +241,7 @@ func (e *env) hardFault(on bool) {
 			}
 			time.Sleep(10 * time.Millisecond)
 		}
+		e.adminReady()
 	}
 }
 
